@@ -1,21 +1,1201 @@
-//! C20 probe (temporary skeleton; replaced by the full harness)
-use rs_matter::crypto::test_only_crypto;
-use rs_matter::transport::network::Address;
-use rs_matter::transport::session::{ReservedSession, SessionMode};
-use rsm_harness::e2e;
+//! C20 correspondence harness (session / exchange slot accounting, rendezvous, handshakes).
+//!
+//! usage: c20 gen <quick|thorough> <seed> <outdir>   -> cases.txt (+ stats.json)
+//!        c20 run <cases-file>                        -> one line per case from the REAL code
+//!        c20 maxs                                    -> MAX_SESSIONS of this build
+//!        c20 probe                                   -> the findings' witnesses on the real code
+//!
+//! Case kinds (a binary only runs the lines whose `n=` equals its own MAX_SESSIONS)
+//!   D <id> n=<cap> <op>,<op>,...    direct op sequence on Sessions / ReservedSession / Exchange
+//!   V <id> n=<cap> <op>,<op>,...    mDNS resolve rendezvous (requesters polled by hand, fake responder)
+//!   W <id> n=<cap> <op>,<op>,...    mDNS browse rendezvous
+//!   E <id> n=<cap> k=<P|C> beh=<b>.<b>.. conc=<0|1> g=<n> j=<n> age=<0|1>
+//!                                   e2e: initiators against one device, then snapshot + probe handshake
+use core::future::Future;
+use core::net::{IpAddr, Ipv4Addr};
+use core::num::NonZeroU8;
+use core::pin::Pin;
+use core::task::{Context, Poll, Waker};
+use std::cell::RefCell;
+use std::collections::BTreeMap;
+use std::fmt::Write as _;
+use std::io::Write as _;
+use std::rc::Rc;
 
-fn main() {
+use embassy_futures::select::{select, Either};
+use embassy_time::{Duration, Timer};
+
+use rs_matter::crypto::test_only_crypto;
+use rs_matter::error::{Error, ErrorCode};
+use rs_matter::respond::Responder;
+use rs_matter::sc::case::CaseInitiator;
+use rs_matter::sc::pase::{PaseInitiator, MAX_COMM_WINDOW_TIMEOUT_SECS};
+use rs_matter::sc::SecureChannel;
+use rs_matter::transport::exchange::Exchange;
+use rs_matter::transport::network::mdns::{CommissionableFilter, DottedName, MdnsRemoteService};
+use rs_matter::transport::network::{Address, MatterRemoteService, NoNetwork};
+use rs_matter::transport::packet::PacketHdr;
+use rs_matter::transport::session::{ReservedSession, SessionMode, MAX_SESSIONS};
+use rs_matter::Matter;
+
+use rsm_harness::e2e::{self, Action, Net};
+use rsm_harness::Rng;
+
+const FAR: u64 = 1 << 50; // "in the future" stamp (ticks)
+const PROTO: u16 = 0x00F0;
+
+// ------------------------------------------------------------------ D: direct op sequences
+
+fn mode_char(m: &SessionMode) -> char {
+    match m {
+        SessionMode::PlainText => 'N',
+        SessionMode::Pase { .. } => 'P',
+        SessionMode::Case { .. } => 'C',
+        SessionMode::Group { .. } => 'G',
+    }
+}
+
+fn mode_of(c: &str) -> SessionMode {
+    match c {
+        "P" => SessionMode::Pase { fab_idx: 0 },
+        "C" => SessionMode::Case {
+            fab_idx: NonZeroU8::new(1).unwrap(),
+            cat_ids: Default::default(),
+        },
+        "G" => SessionMode::Group {
+            fab_idx: NonZeroU8::new(1).unwrap(),
+            group_id: 1,
+        },
+        _ => SessionMode::PlainText,
+    }
+}
+
+#[derive(Clone, PartialEq)]
+struct Row {
+    id: u32,
+    mode: char,
+    reserved: bool,
+    expired: bool,
+    last: u64,
+    /// (index, state, exch_id)
+    slots: Vec<(usize, char, u16)>,
+}
+
+fn table(matter: &Matter<'_>) -> Vec<Row> {
+    matter.with_state(|s| {
+        s.verif_sessions()
+            .iter()
+            .map(|x| {
+                let sn = x.verif_snapshot();
+                Row {
+                    id: sn.id,
+                    mode: mode_char(&sn.mode),
+                    reserved: sn.reserved,
+                    expired: sn.expired,
+                    last: x.verif_last_use_ticks(),
+                    slots: sn
+                        .exchanges
+                        .iter()
+                        .map(|e| {
+                            let st = match e.state {
+                                'o' => 'o',
+                                'p' => 'p',
+                                _ => {
+                                    if e.retrans_ctr.is_some() {
+                                        'R'
+                                    } else {
+                                        'A'
+                                    }
+                                }
+                            };
+                            (e.index, st, e.exch_id)
+                        })
+                        .collect(),
+                }
+            })
+            .collect()
+    })
+}
+
+fn table_str(t: &[Row]) -> String {
+    let mut s = String::new();
+    for r in t {
+        let last = if r.last >= FAR / 2 { "F".to_string() } else { r.last.to_string() };
+        write!(s, "{}{}{}{}@{}[", r.id, r.mode, r.reserved as u8, r.expired as u8, last).unwrap();
+        for (i, st, _) in &r.slots {
+            write!(s, "{}{}", i, st).unwrap();
+        }
+        s.push_str("];");
+    }
+    s
+}
+
+fn set_last(matter: &Matter<'_>, id: u32, ticks: u64) {
+    matter.with_state(|s| {
+        // `Sessions::get` would refresh the stamp: go through the table by hand
+        let ids: Vec<u32> = s.verif_sessions().iter().map(|x| x.id()).collect();
+        if ids.contains(&id) {
+            let sess = s.verif_sessions().get(id).unwrap();
+            sess.verif_set_last_use_ticks(ticks);
+        }
+    });
+}
+
+fn run_d(ops: &str) -> String {
+    let crypto = test_only_crypto();
+    let det = e2e::dev_det(Some(40), Some(80));
+    let matter = e2e::new_matter(det, false);
+    let mut handles: BTreeMap<u32, ReservedSession<'_>> = BTreeMap::new();
+    let mut exchanges: BTreeMap<(u32, usize), Exchange<'_>> = BTreeMap::new();
+    let mut rx_ctr: u32 = 100;
+    let mut rx_exch: u16 = 500;
+    let mut out = String::new();
+    let mut monitor = String::new();
+    for op in ops.split(',').filter(|x| !x.is_empty()) {
+        let p: Vec<&str> = op.split(':').collect();
+        let before = table(&matter);
+        let num = |i: usize| -> u64 {
+            if p[i] == "F" {
+                FAR
+            } else {
+                p[i].parse().unwrap()
+            }
+        };
+        let mut now: Option<u64> = None;
+        let res: String = match p[0] {
+            "a" => {
+                now = Some(num(1));
+                let r = matter.with_state(|s| {
+                    s.verif_sessions()
+                        .add(0, false, Address::new(), None, det)
+                        .map(|x| x.id())
+                });
+                match r {
+                    Ok(id) => format!("id{}", id),
+                    Err(_) => "nospace".into(),
+                }
+            }
+            "r" | "R" => {
+                now = Some(num(1));
+                let r = if p[0] == "r" {
+                    ReservedSession::reserve_now(&matter, &crypto)
+                } else {
+                    e2e::block_on(ReservedSession::reserve(&matter, &crypto))
+                };
+                match r {
+                    Ok(h) => {
+                        let id = h.verif_id();
+                        handles.insert(id, h);
+                        format!("id{}", id)
+                    }
+                    Err(_) => "nospace".into(),
+                }
+            }
+            "u" => {
+                now = Some(num(3));
+                let id = num(1) as u32;
+                match handles.get_mut(&id) {
+                    Some(h) => match h.update(1, 2, 3, 4, Address::new(), mode_of(p[2]), None, None, None, None) {
+                        Ok(()) => "ok".into(),
+                        Err(_) => "nosess".into(),
+                    },
+                    None => "none".into(),
+                }
+            }
+            "c" => {
+                let id = num(1) as u32;
+                if let Some(h) = handles.get_mut(&id) {
+                    h.complete();
+                }
+                "ok".into()
+            }
+            "d" => {
+                now = Some(num(2));
+                let id = num(1) as u32;
+                let h = handles.remove(&id);
+                match rsm_harness::catch(std::panic::AssertUnwindSafe(move || drop(h))) {
+                    Ok(()) => "-".into(),
+                    Err(_) => "panic".into(),
+                }
+            }
+            "x" => {
+                let id = num(1) as u32;
+                match matter.with_state(|s| s.verif_sessions().remove(id).map(|_| ())) {
+                    Some(()) => "ok".into(),
+                    None => "none".into(),
+                }
+            }
+            "e" => {
+                now = Some(num(1));
+                let victim = matter.with_state(|s| s.verif_sessions().get_session_for_eviction().map(|x| x.id()));
+                match victim {
+                    Some(id) => {
+                        let v = before.iter().find(|r| r.id == id).unwrap();
+                        write!(monitor, "{}{}{},", v.reserved as u8, v.slots.len(), ((v.expired) as u8)).unwrap();
+                        matter.with_state(|s| s.verif_sessions().remove(id));
+                        format!("id{}", id)
+                    }
+                    None => "none".into(),
+                }
+            }
+            "t" => {
+                now = Some(num(2));
+                let id = num(1) as u32;
+                match matter.with_state(|s| s.verif_sessions().get(id).map(|_| ())) {
+                    Some(()) => "ok".into(),
+                    None => "none".into(),
+                }
+            }
+            "E" => {
+                let id = num(1) as u32;
+                matter.with_state(|s| {
+                    if let Some(x) = s.verif_sessions().get(id) {
+                        x.verif_set_expired(true);
+                    }
+                });
+                "ok".into()
+            }
+            "L" => {
+                set_last(&matter, num(1) as u32, num(2));
+                "ok".into()
+            }
+            "M" => {
+                let id = num(1) as u32;
+                let done = matter.with_state(|s| match s.verif_sessions().get(id) {
+                    Some(x) if !x.verif_snapshot().reserved => {
+                        x.verif_set_session_mode(mode_of(p[2]));
+                        true
+                    }
+                    _ => false,
+                });
+                if done { "ok".into() } else { "none".into() }
+            }
+            "p" => {
+                let keep = if p[1] == "-" { None } else { Some(num(1) as u32) };
+                matter.with_state(|s| s.verif_sessions().remove_pase(keep));
+                "ok".into()
+            }
+            "xa" => {
+                now = Some(num(3));
+                let id = num(1) as u32;
+                let pending = p[2] == "1";
+                let row = before.iter().find(|r| r.id == id);
+                let r: Result<(), ErrorCode> = match row {
+                    None => Err(ErrorCode::NoSession),
+                    Some(row) => {
+                        if pending {
+                            if row.reserved {
+                                // Session::is_for_rx never matches a reserved slot
+                                Err(ErrorCode::NoSession)
+                            } else {
+                                rx_ctr += 1;
+                                rx_exch += 1;
+                                let mut hdr = PacketHdr::new();
+                                hdr.plain.ctr = rx_ctr;
+                                hdr.proto.exch_id = rx_exch;
+                                hdr.proto.proto_id = PROTO;
+                                hdr.proto.proto_opcode = 1;
+                                hdr.proto.set_initiator();
+                                hdr.proto.set_reliable();
+                                matter.with_state(|s| {
+                                    let x = s.verif_sessions().get(id).unwrap();
+                                    x.verif_post_recv(&hdr).map(|_| ()).map_err(|e| e.code())
+                                })
+                            }
+                        } else {
+                            match Exchange::initiate_for_session(&matter, &crypto, id) {
+                                Ok(ex) => {
+                                    // find the slot it took
+                                    let after = table(&matter);
+                                    let a = after.iter().find(|r| r.id == id).unwrap();
+                                    let idx = a
+                                        .slots
+                                        .iter()
+                                        .find(|(i, _, _)| !row.slots.iter().any(|(j, _, _)| j == i))
+                                        .map(|(i, _, _)| *i)
+                                        .unwrap();
+                                    exchanges.insert((id, idx), ex);
+                                    Ok(())
+                                }
+                                Err(e) => Err(e.code()),
+                            }
+                        }
+                    }
+                };
+                match r {
+                    Ok(()) => {
+                        let after = table(&matter);
+                        let a = after.iter().find(|r| r.id == id).unwrap();
+                        let row = row.unwrap();
+                        let idx = a
+                            .slots
+                            .iter()
+                            .find(|(i, _, _)| !row.slots.iter().any(|(j, _, _)| j == i))
+                            .map(|(i, _, _)| *i)
+                            .unwrap();
+                        format!("ix{}", idx)
+                    }
+                    Err(ErrorCode::NoSpaceExchanges) => "noexch".into(),
+                    Err(_) => "nosess".into(),
+                }
+            }
+            "xd" => {
+                now = Some(num(4));
+                let id = num(1) as u32;
+                let xi = num(2) as usize;
+                let retr = p[3].as_bytes()[0] == b'1';
+                let ack = p[3].as_bytes()[1] == b'1';
+                let row = before.iter().find(|r| r.id == id);
+                let owned = row.map(|r| r.slots.iter().any(|(i, st, _)| *i == xi && *st == 'o')).unwrap_or(false);
+                if owned && exchanges.contains_key(&(id, xi)) {
+                    let exch_id = row.unwrap().slots.iter().find(|(i, _, _)| *i == xi).unwrap().2;
+                    matter.with_state(|s| {
+                        let x = s.verif_sessions().get(id).unwrap();
+                        if ack {
+                            rx_ctr += 1;
+                            let mut hdr = PacketHdr::new();
+                            hdr.plain.ctr = rx_ctr;
+                            hdr.proto.exch_id = exch_id;
+                            hdr.proto.proto_id = PROTO;
+                            hdr.proto.proto_opcode = 2;
+                            hdr.proto.set_reliable();
+                            let _ = x.verif_post_recv(&hdr);
+                        }
+                        if retr {
+                            let mut hdr = PacketHdr::new();
+                            hdr.proto.proto_id = PROTO;
+                            hdr.proto.proto_opcode = 1;
+                            hdr.proto.set_reliable();
+                            let _ = x.verif_pre_send(Some(xi), &mut hdr);
+                        }
+                    });
+                    drop(exchanges.remove(&(id, xi)));
+                    "ok".into()
+                } else {
+                    // an Exchange whose session is gone: dropping it must be harmless
+                    if let Some(ex) = exchanges.remove(&(id, xi)) {
+                        drop(ex);
+                    }
+                    "none".into()
+                }
+            }
+            "s" => {
+                now = Some(num(1));
+                let runner = matter.transport_runner(&crypto);
+                let _ = e2e::block_on(runner.verif_sweep_dropped_once());
+                let after = table(&matter);
+                if after.len() < before.len() {
+                    let gone = before.iter().find(|r| !after.iter().any(|a| a.id == r.id)).unwrap();
+                    format!("id{}", gone.id)
+                } else {
+                    let mut r = "none".to_string();
+                    for b in &before {
+                        if let Some(a) = after.iter().find(|a| a.id == b.id) {
+                            if a.slots.len() < b.slots.len() {
+                                let i = b.slots.iter().find(|(i, _, _)| !a.slots.iter().any(|(j, _, _)| j == i)).unwrap().0;
+                                r = format!("ix{}", i);
+                            }
+                        }
+                    }
+                    r
+                }
+            }
+            _ => "?".into(),
+        };
+        let _ = matter.transport().reset();
+        // re-stamp: what the operation touched gets the logical time, everything else keeps its stamp
+        let after = table(&matter);
+        for a in &after {
+            let old = before.iter().find(|b| b.id == a.id);
+            match (old, now) {
+                (Some(b), _) if b.last == a.last => {}
+                (Some(b), None) => set_last(&matter, a.id, b.last),
+                (_, Some(t)) => set_last(&matter, a.id, t),
+                (None, None) => set_last(&matter, a.id, 0),
+            }
+        }
+        let t = table(&matter);
+        let nres = t.iter().filter(|r| r.reserved).count();
+        let nlive = handles.keys().filter(|id| t.iter().any(|r| r.id == **id)).count();
+        write!(out, "{}>{}#{}={} ", res, table_str(&t), nres, nlive).unwrap();
+    }
+    drop(exchanges);
+    drop(handles);
+    format!("{}| ev={}", out.trim_end(), if monitor.is_empty() { "-" } else { &monitor })
+}
+
+// ------------------------------------------------------------------ V / W: rendezvous
+
+type Req<'a> = Pin<Box<dyn Future<Output = Result<(), Error>> + 'a>>;
+
+fn poll_once<T>(f: &mut Pin<Box<dyn Future<Output = T> + '_>>) -> Poll<T> {
+    let mut cx = Context::from_waker(Waker::noop());
+    f.as_mut().poll(&mut cx)
+}
+
+fn run_v(browse: bool, ops: &str) -> String {
+    let det = e2e::dev_det(Some(40), Some(80));
+    let matter = e2e::new_matter(det, false);
+    let tr = matter.transport();
+    let oplist: Vec<&str> = ops.split(',').filter(|x| !x.is_empty()).collect();
+    // requesters that will be timed out get a short timer
+    let mut will_timeout = std::collections::BTreeSet::new();
+    for o in &oplist {
+        if let Some(r) = o.strip_prefix('t') {
+            will_timeout.insert(r.parse::<usize>().unwrap());
+        }
+    }
+    let filters: RefCell<Vec<Box<CommissionableFilter>>> = RefCell::new(Vec::new());
+    let _ = &filters;
+    let mut reqs: Vec<Option<Req<'_>>> = Vec::new();
+    let mut out = String::new();
+    let slot = || {
+        let (r, b) = tr.verif_rendezvous_state();
+        if browse { b } else { r }
+    };
+    for o in &oplist {
+        let (k, arg) = o.split_at(1);
+        let res: String = match k {
+            "s" => {
+                let svc: u64 = arg.parse().unwrap();
+                let idx = reqs.len();
+                let timeout = if will_timeout.contains(&idx) { 15 } else { 600_000 };
+                let fut: Req<'_> = if browse {
+                    let filter: &'static CommissionableFilter = Box::leak(Box::new(CommissionableFilter {
+                        discriminator: Some(svc as u16),
+                        ..Default::default()
+                    }));
+                    Box::pin(async move { tr.browse_commissionable(filter, &[], timeout).await.map(|_| ()) })
+                } else {
+                    let service = MatterRemoteService::Operational { compressed_fabric_id: 0x1122, node_id: svc };
+                    Box::pin(async move { tr.verif_resolve(service, timeout).await.map(|_| ()) })
+                };
+                reqs.push(Some(fut));
+                "-".into()
+            }
+            "p" | "t" => {
+                let i: usize = arg.parse().unwrap();
+                if k == "t" {
+                    std::thread::sleep(std::time::Duration::from_millis(25));
+                }
+                match reqs.get_mut(i).and_then(|r| r.as_mut()) {
+                    None => "-".into(),
+                    Some(f) => match poll_once(f) {
+                        Poll::Pending => "-".into(),
+                        Poll::Ready(r) => {
+                            reqs[i] = None;
+                            match r {
+                                Ok(()) => "ok".into(),
+                                Err(e) if e.code() == ErrorCode::NotFound => "nf".into(),
+                                Err(_) => "err".into(),
+                            }
+                        }
+                    },
+                }
+            }
+            "c" => {
+                let i: usize = arg.parse().unwrap();
+                if let Some(r) = reqs.get_mut(i) {
+                    *r = None;
+                }
+                "-".into()
+            }
+            "k" => {
+                if browse {
+                    let mut f: Pin<Box<dyn Future<Output = CommissionableFilter> + '_>> = Box::pin(tr.wait_mdns_browse_request());
+                    match poll_once(&mut f) {
+                        Poll::Ready(flt) => format!("pick{}", flt.discriminator.unwrap_or(0)),
+                        Poll::Pending => "-".into(),
+                    }
+                } else {
+                    let mut f: Pin<Box<dyn Future<Output = MatterRemoteService> + '_>> = Box::pin(tr.wait_mdns_resolve_request());
+                    match poll_once(&mut f) {
+                        Poll::Ready(MatterRemoteService::Operational { node_id, .. }) => format!("pick{}", node_id),
+                        Poll::Ready(_) => "pick?".into(),
+                        Poll::Pending => "-".into(),
+                    }
+                }
+            }
+            "d" => {
+                let (svc, has) = arg.split_once(':').unwrap();
+                let svc: u64 = svc.parse().unwrap();
+                let addrs: Vec<IpAddr> = if has == "1" { vec![IpAddr::V4(Ipv4Addr::new(10, 0, 0, 5))] } else { vec![] };
+                if browse {
+                    let name = format!("{:016X}._matterc._udp.local", 0x1000 + svc);
+                    let d = format!("{}", svc);
+                    let answer = MdnsRemoteService {
+                        instance_name: DottedName(name.as_str()),
+                        port: Some(5540),
+                        addrs: addrs.into_iter(),
+                        txt: [("D", d.as_str()), ("CM", "1")].into_iter(),
+                        scope_id: 0,
+                    };
+                    tr.try_deposit_mdns_browse(&answer);
+                } else {
+                    let service = MatterRemoteService::Operational { compressed_fabric_id: 0x1122, node_id: svc };
+                    let mut name = heapless::String::<128>::new();
+                    service.instance_name(&mut name);
+                    let answer = MdnsRemoteService {
+                        instance_name: DottedName(name.as_str()),
+                        port: Some(1234),
+                        addrs: addrs.into_iter(),
+                        txt: core::iter::empty::<(&str, &str)>(),
+                        scope_id: 0,
+                    };
+                    tr.try_deposit_mdns_resolve(&answer, &[]);
+                }
+                "-".into()
+            }
+            _ => "?".into(),
+        };
+        write!(out, "{}>{} ", res, slot()).unwrap();
+    }
+    // every remaining requester is cancelled: the slot must be free afterwards
+    reqs.clear();
+    format!("{}| end={}", out.trim_end(), slot())
+}
+
+// ------------------------------------------------------------------ E: end to end
+
+const DEV: u16 = 100;
+const DEV_NODE: u64 = 0x2222;
+const PROBE: u16 = 50;
+
+struct Snap {
+    reserved: usize,
+    live: usize,
+    dropped: usize,
+    est: usize,
+    plain: usize,
+    total: usize,
+    marker: &'static str,
+    rdv: (u8, u8),
+    detail: String,
+}
+
+fn snapshot(matter: &Matter<'_>) -> Snap {
+    let t = table(matter);
+    let marker = matter.with_state(|s| match s.verif_pase().verif_session_marker() {
+        None => "none",
+        Some((_, _, true)) => "expired",
+        Some((_, _, false)) => "live",
+    });
+    let mut rows: Vec<String> = t
+        .iter()
+        .map(|r| {
+            let mut s = format!("{}{}{}[", r.mode, r.reserved as u8, r.expired as u8);
+            for (_, st, _) in &r.slots {
+                s.push(*st);
+            }
+            s.push(']');
+            s
+        })
+        .collect();
+    rows.sort();
+    Snap {
+        reserved: t.iter().filter(|r| r.reserved).count(),
+        live: t.iter().map(|r| r.slots.iter().filter(|(_, st, _)| *st == 'o' || *st == 'p').count()).sum(),
+        dropped: t.iter().map(|r| r.slots.iter().filter(|(_, st, _)| *st == 'A' || *st == 'R').count()).sum(),
+        est: t.iter().filter(|r| r.mode != 'N' && !r.reserved).count(),
+        plain: t.iter().filter(|r| r.mode == 'N' && !r.reserved).count(),
+        total: t.len(),
+        marker,
+        rdv: matter.transport().verif_rendezvous_state(),
+        detail: rows.join(","),
+    }
+}
+
+fn field<'a>(f: &[&'a str], k: &str) -> &'a str {
+    for x in f {
+        if let Some(v) = x.strip_prefix(k) {
+            if let Some(v) = v.strip_prefix('=') {
+                return v;
+            }
+        }
+    }
+    ""
+}
+
+type BoxFut<'a, T> = Pin<Box<dyn Future<Output = T> + 'a>>;
+
+/// resolves when the first of the futures does
+async fn first_of<'a, T>(mut v: Vec<BoxFut<'a, T>>) -> T {
+    core::future::poll_fn(move |cx| {
+        for f in v.iter_mut() {
+            if let Poll::Ready(r) = f.as_mut().poll(cx) {
+                return Poll::Ready(r);
+            }
+        }
+        Poll::Pending
+    })
+    .await
+}
+
+/// resolves when all futures have
+async fn all_of<'a, T>(v: Vec<BoxFut<'a, T>>) -> Vec<T> {
+    let mut v: Vec<(BoxFut<'a, T>, Option<T>)> = v.into_iter().map(|f| (f, None)).collect();
+    core::future::poll_fn(move |cx| {
+        let mut done = true;
+        for (f, r) in v.iter_mut() {
+            if r.is_none() {
+                match f.as_mut().poll(cx) {
+                    Poll::Ready(x) => *r = Some(x),
+                    Poll::Pending => done = false,
+                }
+            }
+        }
+        if done {
+            Poll::Ready(v.iter_mut().map(|(_, r)| r.take().unwrap()).collect())
+        } else {
+            Poll::Pending
+        }
+    })
+    .await
+}
+
+fn err_tag(e: &Error) -> &'static str {
+    match e.code() {
+        ErrorCode::TxTimeout => "txto",
+        ErrorCode::RxTimeout => "rxto",
+        ErrorCode::Busy => "busy",
+        ErrorCode::NoSpaceSessions => "nospace",
+        _ => "err",
+    }
+}
+
+async fn handshake<C: rs_matter::crypto::Crypto>(
+    mt: &Matter<'static>,
+    crypto: &C,
+    pase: bool,
+    peer: Address,
+    fab: NonZeroU8,
+    tries: usize,
+) -> (&'static str, usize) {
+    let mut last = "none";
+    for t in 0..tries {
+        if t > 0 {
+            Timer::after(Duration::from_millis(250)).await;
+        }
+        let r: Option<Result<(), Error>> = e2e::with_timeout(6000, async {
+            let ex = Exchange::initiate_plaintext(mt, crypto, peer).await?;
+            if pase {
+                PaseInitiator::perform(ex, crypto, 20202021).await
+            } else {
+                CaseInitiator::perform(ex, crypto, fab, DEV_NODE).await
+            }
+        })
+        .await;
+        match r {
+            Some(Ok(())) => return ("ok", t + 1),
+            Some(Err(e)) => last = err_tag(&e),
+            None => last = "hang",
+        }
+    }
+    (last, tries)
+}
+
+fn run_e(f: &[&str]) -> String {
+    let kind = field(f, "k").to_string();
+    let pase = kind == "P";
+    let beh: Vec<String> = field(f, "beh").split('.').filter(|x| !x.is_empty()).map(|x| x.to_string()).collect();
+    let conc = field(f, "conc") == "1";
+    let garbage: usize = field(f, "g").parse().unwrap_or(0);
+    let junk: usize = field(f, "j").parse().unwrap_or(0);
+    let seed: u64 = field(f, "sd").parse().unwrap_or(1);
+    let m = beh.len();
+
+    // datagrams of source `src` with index >= cut[src] are lost
+    let cut: Rc<RefCell<BTreeMap<u16, usize>>> = Rc::new(RefCell::new(BTreeMap::new()));
+    for (i, b) in beh.iter().enumerate() {
+        if let Some(k) = b.strip_prefix('s') {
+            cut.borrow_mut().insert(i as u16 + 1, k.parse().unwrap());
+        }
+    }
+    let cut2 = cut.clone();
+    let net = Net::new(move |src, _dst, idx, _b| match cut2.borrow().get(&src) {
+        Some(k) if idx >= *k => Action::Drop,
+        _ => Action::Deliver,
+    });
+    let crypto = test_only_crypto();
+    let det = e2e::dev_det(Some(40), Some(80));
+    let dev = e2e::new_matter(det, false);
+    let (d_tx, d_rx) = net.attach(DEV);
+    // sources of injected datagrams (nobody listens there)
+    let _silent: Vec<_> = (80u16..95).map(|n| net.attach(n)).collect();
+    let peer = e2e::node_addr(DEV);
+    if pase {
+        dev.open_basic_comm_window(MAX_COMM_WINDOW_TIMEOUT_SECS, &crypto, &()).unwrap();
+    }
+    // initiators 1..m and the probe
+    let mut nodes: Vec<(u16, Matter<'static>, NonZeroU8)> = Vec::new();
+    for i in 0..=m {
+        let no = if i == m { PROBE } else { i as u16 + 1 };
+        let mt = e2e::new_matter(det, false);
+        let mut fab = NonZeroU8::new(1).unwrap();
+        if !pase {
+            let (fa, _) = e2e::install_shared_fabric(&crypto, &mt, 0x1000 + no as u64, &dev, DEV_NODE).unwrap();
+            fab = fa;
+        }
+        nodes.push((no, mt, fab));
+    }
+    let sc = SecureChannel::new(&crypto, &());
+    let responder = Responder::new("dev-sc", sc, &dev, 0);
+
+    let line = e2e::block_on(async {
+        let mut runners: Vec<BoxFut<'_, Result<(), Error>>> = Vec::new();
+        runners.push(Box::pin(dev.run(&crypto, d_tx, d_rx, NoNetwork)));
+        runners.push(Box::pin(responder.run::<4>()));
+        for (no, mt, _) in nodes.iter() {
+            let (tx, rx) = net.attach(*no);
+            runners.push(Box::pin(mt.run(&crypto, tx, rx, NoNetwork)));
+        }
+        let background = first_of(runners);
+
+        let flow = async {
+            let mut rng = Rng::new(seed);
+            // garbage first
+            for j in 0..garbage {
+                let len = 1 + rng.below(40) as usize;
+                let bytes: Vec<u8> = (0..len).map(|_| rng.next() as u8).collect();
+                net.inject(90 + j as u16 % 5, DEV, &bytes);
+            }
+            // the initiators
+            let mut results: Vec<(&'static str, usize)> = Vec::new();
+            if conc {
+                let futs: Vec<BoxFut<'_, (&'static str, usize)>> = nodes[..m]
+                    .iter()
+                    .zip(beh.iter())
+                    .map(|((no, mt, fab), b)| {
+                        let tries = if b.starts_with('f') { 6 } else { 1 };
+                        { let _ = no; Box::pin(handshake(mt, &crypto, pase, peer, *fab, tries)) as BoxFut<'_, _> }
+                    })
+                    .collect();
+                results = all_of(futs).await;
+            } else {
+                for ((no, mt, fab), b) in nodes[..m].iter().zip(beh.iter()) {
+                    let tries = if b.starts_with('f') { 6 } else { 1 };
+                    { let _ = no; results.push(handshake(mt, &crypto, pase, peer, *fab, tries).await); }
+                }
+            }
+            // junk shaped like a first handshake message: a tapped first datagram with a fresh
+            // message counter, a damaged payload and another source address
+            let first = net.tap().into_iter().find(|t| t.dst == DEV && t.idx == 0 && t.src < PROBE);
+            if let Some(t0) = first {
+                for j in 0..junk {
+                    let mut b = t0.bytes.clone();
+                    if b.len() > 8 {
+                        let c = u32::from_le_bytes([b[4], b[5], b[6], b[7]]).wrapping_add(1000 + j as u32);
+                        b[4..8].copy_from_slice(&c.to_le_bytes());
+                    }
+                    let n = b.len();
+                    match j % 3 {
+                        0 => {
+                            for x in b[n - 6..].iter_mut() {
+                                *x ^= 0x5a;
+                            }
+                        }
+                        1 => b.truncate(n - 9),
+                        _ => {}
+                    }
+                    net.inject(80 + j as u16 % 5, DEV, &b);
+                }
+            }
+            // wait until the device is quiet: no reserved slot, no exchange, three polls in a row
+            let mut quiet = 0;
+            let mut waited = 0u32;
+            while waited < 9000 {
+                Timer::after(Duration::from_millis(50)).await;
+                waited += 50;
+                let s = snapshot(&dev);
+                if s.reserved == 0 && s.live == 0 && s.dropped == 0 {
+                    quiet += 1;
+                    if quiet >= 4 {
+                        break;
+                    }
+                } else {
+                    quiet = 0;
+                }
+            }
+            if field(f, "age") == "1" {
+                dev.with_state(|s| s.verif_pase().verif_age_session_marker(61));
+            }
+            let snap = snapshot(&dev);
+            // the probe: a legitimate initiator that honours Busy
+            let (pno, pmt, pfab) = &nodes[m];
+            let _ = pno; let (probe, tries) = handshake(pmt, &crypto, pase, peer, *pfab, 6).await;
+            Timer::after(Duration::from_millis(150)).await;
+            let after = snapshot(&dev);
+            let mut s = String::new();
+            write!(
+                s,
+                "q={} res={} xl={} xd={} marker={} rdv={}{} probe={} | est={} plain={} total={} tries={} after:res={} est={} results=",
+                (quiet >= 4) as u8,
+                snap.reserved,
+                snap.live,
+                snap.dropped,
+                snap.marker,
+                snap.rdv.0,
+                snap.rdv.1,
+                probe,
+                snap.est,
+                snap.plain,
+                snap.total,
+                tries,
+                after.reserved,
+                after.est
+            )
+            .unwrap();
+            for (r, t) in &results {
+                write!(s, "{}:{},", r, t).unwrap();
+            }
+            write!(s, " tbl={}", snap.detail).unwrap();
+            s
+        };
+
+        match select(
+            core::pin::pin!(select(core::pin::pin!(background), core::pin::pin!(flow))),
+            core::pin::pin!(Timer::after(Duration::from_secs(90))),
+        )
+        .await
+        {
+            Either::First(Either::First(r)) => format!("transport-exit:{:?}", r.map_err(|e| e.code())),
+            Either::First(Either::Second(s)) => s,
+            Either::Second(_) => "hang".to_string(),
+        }
+    });
+    line
+}
+
+// ------------------------------------------------------------------ dispatcher
+
+fn run_line(line: &str, out: &mut String) {
+    let f: Vec<&str> = line.split(' ').collect();
+    if f.len() < 3 {
+        return;
+    }
+    let n: usize = f[2].strip_prefix("n=").and_then(|x| x.parse().ok()).unwrap_or(0);
+    if n != MAX_SESSIONS {
+        return;
+    }
+    let rest = f.get(3).copied().unwrap_or("");
+    let r = match f[0] {
+        "D" => rsm_harness::catch(std::panic::AssertUnwindSafe(|| run_d(rest))),
+        "V" => rsm_harness::catch(std::panic::AssertUnwindSafe(|| run_v(false, rest))),
+        "W" => rsm_harness::catch(std::panic::AssertUnwindSafe(|| run_v(true, rest))),
+        "E" => rsm_harness::catch(std::panic::AssertUnwindSafe(|| run_e(&f[3..]))),
+        _ => return,
+    };
+    match r {
+        Ok(s) => writeln!(out, "{} {} {}", f[0], f[1], s).unwrap(),
+        Err(msg) => writeln!(out, "{} {} PANIC {}", f[0], f[1], msg.replace(' ', "_").replace('\n', "_")).unwrap(),
+    }
+}
+
+// ------------------------------------------------------------------ generator
+
+/// a light mirror of the table, only to steer the generator towards valid identifiers
+struct GenState {
+    next: u32,
+    live: Vec<u32>,
+    handles: Vec<(u32, bool)>,
+    exch: Vec<(u32, usize)>,
+}
+
+fn gen_d(rng: &mut Rng, cap: usize, len: usize, style: u32) -> String {
+    let mut g = GenState { next: 0, live: vec![], handles: vec![], exch: vec![] };
+    let mut ops: Vec<String> = Vec::new();
+    let mut clock = 1u64;
+    let pick = |rng: &mut Rng, v: &Vec<u32>, next: u32| -> u32 {
+        if v.is_empty() || rng.chance(1, 12) {
+            rng.below(next as u64 + 2) as u32
+        } else {
+            *rng.pick(v)
+        }
+    };
+    for _ in 0..len {
+        clock += 1;
+        let now = clock;
+        let full = g.live.len() >= cap;
+        let roll = rng.below(100);
+        let w = match style {
+            0 => roll,                    // everything
+            1 => roll % 45,               // table churn: adds / reserves / drops / evictions
+            2 => 45 + roll % 55,          // exchanges and sweeps on a populated table
+            _ => roll,
+        };
+        if g.live.len() < 2 && style == 2 {
+            ops.push(format!("a:{}", now));
+            g.live.push(g.next);
+            g.next += 1;
+            continue;
+        }
+        let op = match w {
+            0..=9 => {
+                if !full { g.live.push(g.next); }
+                g.next += 1;
+                format!("a:{}", now)
+            }
+            10..=16 => {
+                if !full { g.live.push(g.next); g.handles.push((g.next, false)); }
+                g.next += 1;
+                format!("r:{}", now)
+            }
+            17..=26 => {
+                // reserve with eviction: the mirror cannot know the victim; keep ids loosely
+                let id = g.next;
+                if full { g.next += 2; } else { g.next += 1; }
+                let nid = if full { id + 1 } else { id };
+                g.live.push(nid);
+                g.handles.push((nid, false));
+                format!("R:{}", now)
+            }
+            27..=31 => {
+                let hs: Vec<u32> = g.handles.iter().map(|h| h.0).collect();
+                let id = pick(rng, &hs, g.next);
+                format!("u:{}:{}:{}", id, *rng.pick(&["P", "C", "P", "N"]), now)
+            }
+            32..=36 => {
+                let hs: Vec<u32> = g.handles.iter().map(|h| h.0).collect();
+                let id = pick(rng, &hs, g.next);
+                format!("c:{}", id)
+            }
+            37..=44 => {
+                let hs: Vec<u32> = g.handles.iter().map(|h| h.0).collect();
+                let id = pick(rng, &hs, g.next);
+                g.handles.retain(|h| h.0 != id);
+                format!("d:{}:{}", id, now)
+            }
+            45..=48 => format!("x:{}", pick(rng, &g.live, g.next)),
+            49..=56 => format!("e:{}", now),
+            57..=62 => format!("t:{}:{}", pick(rng, &g.live, g.next), now),
+            63..=66 => format!("E:{}", pick(rng, &g.live, g.next)),
+            67..=69 => {
+                let t = if rng.chance(1, 2) { "F".to_string() } else { rng.below(clock).to_string() };
+                format!("L:{}:{}", pick(rng, &g.live, g.next), t)
+            }
+            70..=72 => format!("M:{}:{}", pick(rng, &g.live, g.next), *rng.pick(&["P", "C", "N", "P"])),
+            73..=75 => {
+                if rng.chance(1, 2) { "p:-".to_string() } else { format!("p:{}", pick(rng, &g.live, g.next)) }
+            }
+            76..=86 => {
+                let id = pick(rng, &g.live, g.next);
+                let pending = rng.chance(1, 3);
+                if !pending {
+                    // the mirror does not know the slot index: remember a plausible one
+                    let used = g.exch.iter().filter(|e| e.0 == id).count();
+                    g.exch.push((id, used));
+                }
+                format!("xa:{}:{}:{}", id, pending as u8, now)
+            }
+            87..=94 => {
+                let (id, xi) = if g.exch.is_empty() || rng.chance(1, 10) {
+                    (pick(rng, &g.live, g.next), rng.below(6) as usize)
+                } else {
+                    let k = rng.below(g.exch.len() as u64) as usize;
+                    g.exch.remove(k)
+                };
+                let fl = *rng.pick(&["00", "00", "01", "10", "11"]);
+                format!("xd:{}:{}:{}:{}", id, xi, fl, now)
+            }
+            _ => format!("s:{}", now),
+        };
+        ops.push(op);
+    }
+    ops.join(",")
+}
+
+fn gen_v(rng: &mut Rng, len: usize) -> String {
+    let mut ops: Vec<String> = Vec::new();
+    let mut nreq = 0usize;
+    let timeout_req = rng.below(3) as usize; // only this requester may be timed out
+    for _ in 0..len {
+        let roll = rng.below(100);
+        let r = if nreq == 0 { 0 } else { rng.below(nreq as u64) as usize };
+        let op = match roll {
+            0..=17 => {
+                nreq += 1;
+                format!("s{}", 1 + rng.below(3))
+            }
+            18..=47 => format!("p{}", r),
+            48..=57 => format!("c{}", r),
+            58..=65 => format!("t{}", timeout_req),
+            66..=79 => "k".to_string(),
+            _ => format!("d{}:{}", 1 + rng.below(3), if rng.chance(4, 5) { 1 } else { 0 }),
+        };
+        if nreq == 0 && !op.starts_with('s') && !op.starts_with('d') && op != "k" {
+            continue;
+        }
+        ops.push(op);
+    }
+    ops.join(",")
+}
+
+fn generate(tier: &str, seed: u64) -> Vec<String> {
+    let mut rng = Rng::new(seed ^ 0xC20);
+    let mut cases: Vec<String> = Vec::new();
+    let thorough = tier == "thorough";
+    let mut id = 0u32;
+    let mut push = |cases: &mut Vec<String>, kind: &str, n: usize, body: String| {
+        id += 1;
+        cases.push(format!("{} {} n={} {}", kind, id, n, body));
+    };
+    // --- hand-written branch stream (one per arm of the model), for both table sizes
+    for n in [16usize, 3] {
+        // completed handle purged before the drop (the repaired panic), both orders
+        push(&mut cases, "D", n, "r:2,u:0:P:3,c:0,p:-,d:0:5,a:6".into());
+        push(&mut cases, "D", n, "r:2,u:0:P:3,p:-,c:0,d:0:5".into());
+        push(&mut cases, "D", n, "r:2,u:0:C:3,c:0,x:0,d:0:5".into());
+        // incomplete drop removes, complete drop keeps and clears the flag
+        push(&mut cases, "D", n, "r:2,d:0:3,r:4,c:1,d:1:6,e:7".into());
+        // eviction: expired first, else least recently used, never reserved / never with an exchange
+        push(&mut cases, "D", n, "a:2,a:3,a:4,t:0:5,e:6,e:7,e:8,e:9".into());
+        push(&mut cases, "D", n, "a:2,a:3,a:4,E:2,e:6,E:0,e:7,e:8".into());
+        push(&mut cases, "D", n, "a:2,a:3,r:4,xa:0:0:5,e:6,e:7,xd:0:0:00:8,e:9,e:10".into());
+        push(&mut cases, "D", n, "a:2,a:3,L:0:F,L:1:F,e:5,E:1,e:7,e:8".into());
+        push(&mut cases, "D", n, "a:2,a:3,a:4,L:0:2,L:1:2,L:2:2,e:6,e:7,e:8".into());
+        // swap_remove order then eviction ties
+        push(&mut cases, "D", n, "a:2,a:3,a:4,x:0,L:1:1,L:2:1,e:8,e:9".into());
+        // remove_pase with and without a kept session; reserved PASE slot is purged too
+        push(&mut cases, "D", n, "a:2,a:3,a:4,M:0:P,M:2:P,p:2,e:7,e:8,e:9".into());
+        push(&mut cases, "D", n, "a:2,M:0:P,r:4,u:1:P:5,p:-,d:1:7".into());
+        // exchange slots: push then reuse of holes, NoSpaceExchanges, drop flavours, sweeper
+        push(&mut cases, "D", n, "a:2,xa:0:0:3,xa:0:0:4,xa:0:1:5,xa:0:0:6,xa:0:0:7,xa:0:0:8,xd:0:1:00:9,xa:0:0:10,xd:0:0:01:11,xd:0:3:10:12,s:13,s:14,s:15".into());
+        push(&mut cases, "D", n, "a:2,a:3,xa:0:0:4,xa:1:0:5,xd:1:0:01:6,xd:0:0:11:7,s:8,s:9,s:10".into());
+        push(&mut cases, "D", n, "a:2,E:0,xa:0:0:3,xa:0:1:4,r:5,xa:1:1:6,xa:1:0:7,xd:1:0:00:8".into());
+        push(&mut cases, "D", n, "a:2,xa:0:0:3,x:0,xd:0:0:00:5,a:6".into());
+    }
+    // table full: reserve evicts an idle session, refuses when none is idle
+    let fill3 = "a:2,a:3,a:4";
+    push(&mut cases, "D", 3, format!("{},R:5,R:6,R:7,R:8,d:3:9,R:10", fill3));
+    push(&mut cases, "D", 3, format!("{},xa:0:0:5,xa:1:0:6,R:7,R:8,xd:0:0:00:9,R:10", fill3));
+    push(&mut cases, "D", 3, format!("{},xa:0:0:5,xa:1:0:6,xa:2:1:7,R:8,a:9,e:10", fill3));
+    let fill16: Vec<String> = (0..16).map(|i| format!("a:{}", i + 2)).collect();
+    push(&mut cases, "D", 16, format!("{},R:20,R:21,a:22,e:23,R:24,d:16:25,d:17:26,R:27", fill16.join(",")));
+    // --- random streams
+    let nd = if thorough { 6000 } else { 900 };
+    for i in 0..nd {
+        let n = if i % 3 == 0 { 3 } else { 16 };
+        let len = 6 + rng.below(if n == 3 { 22 } else { 45 }) as usize;
+        let style = (i % 4) as u32;
+        let body = gen_d(&mut rng, n, len, style);
+        push(&mut cases, "D", n, body);
+    }
+    // --- rendezvous: hand-written, then random
+    for kind in ["V", "W"] {
+        push(&mut cases, kind, 16, "s1,p0,k,d1:1,p0".into());
+        push(&mut cases, kind, 16, "s1,p0,c0,d1:1,k,s2,p1,k,d1:1,d2:0,d2:1,p1".into());
+        push(&mut cases, kind, 16, "s1,p0,k,t0,d1:1,s2,p1".into());
+        push(&mut cases, kind, 16, "s1,s2,p0,p1,k,c1,d1:1,d3:1,p0,p1".into());
+        push(&mut cases, kind, 16, "d1:1,k,s1,p0,t0,s1,p1,k,d1:1,d1:1,c1".into());
+        push(&mut cases, kind, 16, "s1,s2,s3,p2,p0,c2,p0,k,c0,p1,k,d2:1,p1".into());
+    }
+    let nv = if thorough { 3000 } else { 500 };
+    for i in 0..nv {
+        let len = 4 + rng.below(16) as usize;
+        let body = gen_v(&mut rng, len);
+        if body.is_empty() {
+            continue;
+        }
+        push(&mut cases, if i % 2 == 0 { "V" } else { "W" }, 16, body);
+    }
+    // --- end to end
+    let mut e2e_cases: Vec<(usize, String)> = Vec::new();
+    for n in [16usize, 3] {
+        for k in ["P", "C"] {
+            let stops: &[&str] = if k == "P" { &["s1", "s2", "s3"] } else { &["s1", "s2"] };
+            for s in stops {
+                e2e_cases.push((n, format!("k={} beh={} conc=0 g=0 j=0 age=0", k, s)));
+            }
+            e2e_cases.push((n, format!("k={} beh=f conc=0 g=3 j=0 age=0", k)));
+            e2e_cases.push((n, format!("k={} beh=s1.s2.f conc=0 g=2 j=2 age=0", k)));
+            e2e_cases.push((n, format!("k={} beh=f.f conc=1 g=0 j=0 age=0", k)));
+            e2e_cases.push((n, format!("k={} beh=s1.s1.s2 conc=1 g=4 j=3 age=0", k)));
+        }
+        e2e_cases.push((n, "k=P beh=s3.s2.s1.f conc=0 g=1 j=1 age=0".into()));
+        e2e_cases.push((n, "k=P beh= conc=0 g=6 j=0 age=0".into()));
+        e2e_cases.push((n, "k=P beh=s2 conc=0 g=0 j=4 age=1".into()));
+    }
+    if thorough {
+        for i in 0..40 {
+            let n = if i % 2 == 0 { 16 } else { 3 };
+            let k = if rng.chance(3, 5) { "P" } else { "C" };
+            let m = 1 + rng.below(3) as usize;
+            let mut b = Vec::new();
+            for _ in 0..m {
+                let c = if k == "P" { ["s1", "s2", "s3", "f"][rng.below(4) as usize] } else { ["s1", "s2", "f"][rng.below(3) as usize] };
+                b.push(c);
+            }
+            e2e_cases.push((n, format!("k={} beh={} conc={} g={} j={} age=0", k, b.join("."), rng.below(2), rng.below(5), rng.below(4))));
+        }
+    }
+    for (i, (n, body)) in e2e_cases.into_iter().enumerate() {
+        push(&mut cases, "E", n, format!("{} sd={}", body, seed + i as u64));
+    }
+    cases
+}
+
+fn probe() {
+    // finding 1 (repaired): a completed handle whose slot was purged
     let crypto = test_only_crypto();
     let det = e2e::dev_det(Some(40), Some(80));
     let matter = e2e::new_matter(det, false);
     let r = rsm_harness::catch(std::panic::AssertUnwindSafe(|| {
         let mut h = ReservedSession::reserve_now(&matter, &crypto).unwrap();
-        h.update(0, 0, 1, 2, Address::new(), SessionMode::Pase { fab_idx: 0 }, None, None, None, None)
-            .unwrap();
+        h.update(0, 0, 1, 2, Address::new(), SessionMode::Pase { fab_idx: 0 }, None, None, None, None).unwrap();
         h.complete();
         matter.with_state(|s| s.verif_sessions().remove_pase(None));
         drop(h);
         matter.with_state(|s| s.verif_sessions().iter().count())
     }));
     println!("purge-then-complete-drop: {:?}", r);
+    println!("D-case form: {}", run_d("r:2,u:0:P:3,c:0,p:-,d:0:5,a:6"));
+}
+
+fn main() {
+    let args: Vec<String> = std::env::args().collect();
+    // let the timer driver's clock move past the logical stamps used by the D cases
+    let _ = embassy_time::Instant::now();
+    std::thread::sleep(std::time::Duration::from_millis(5));
+    match args.get(1).map(|s| s.as_str()) {
+        Some("maxs") => println!("{}", MAX_SESSIONS),
+        Some("probe") => probe(),
+        Some("gen") => {
+            let tier = args.get(2).map(|s| s.as_str()).unwrap_or("quick");
+            let seed: u64 = args.get(3).and_then(|s| s.parse().ok()).unwrap_or_else(rsm_harness::seed_from_env);
+            let outdir = args.get(4).cloned().unwrap_or_else(|| ".".into());
+            let cases = generate(tier, seed);
+            let mut f = std::fs::File::create(format!("{}/cases.txt", outdir)).unwrap();
+            for c in &cases {
+                writeln!(f, "{}", c).unwrap();
+            }
+            let mut kinds: BTreeMap<String, usize> = BTreeMap::new();
+            let mut opk: BTreeMap<String, usize> = BTreeMap::new();
+            for c in &cases {
+                let f: Vec<&str> = c.split(' ').collect();
+                *kinds.entry(format!("{}/{}", f[0], f[2])).or_insert(0) += 1;
+                if f[0] == "D" {
+                    for o in f[3].split(',') {
+                        *opk.entry(o.split(':').next().unwrap().to_string()).or_insert(0) += 1;
+                    }
+                }
+            }
+            let mut s = String::from("{\"cases_by_kind\":{");
+            s.push_str(&kinds.iter().map(|(k, v)| format!("\"{}\":{}", k, v)).collect::<Vec<_>>().join(","));
+            s.push_str("},\"d_ops_by_kind\":{");
+            s.push_str(&opk.iter().map(|(k, v)| format!("\"{}\":{}", k, v)).collect::<Vec<_>>().join(","));
+            s.push_str("}}");
+            std::fs::write(format!("{}/stats.json", outdir), s).unwrap();
+        }
+        Some("run") => {
+            rsm_harness::silence_panics();
+            let path = args.get(2).expect("cases file");
+            let text = std::fs::read_to_string(path).unwrap();
+            let mut out = String::new();
+            for line in text.lines() {
+                run_line(line, &mut out);
+            }
+            std::io::stdout().write_all(out.as_bytes()).unwrap();
+        }
+        _ => eprintln!("usage: c20 gen|run|maxs|probe"),
+    }
 }
